@@ -971,11 +971,7 @@ namespace bluetoe {
         if ( std::find( std::begin( expected_states ), std::end( expected_states ), state.state() ) == std::end( expected_states ) )
             return this->error_response( details::sm_error_codes::unspecified_reason, output, out_size, state );
 
-        if ( state.state() == details::sm_pairing_state::user_response_wait )
-        {
-            out_size = 0;
-        }
-        else if ( state.state() == details::sm_pairing_state::user_response_failed )
+        if ( state.state() == details::sm_pairing_state::user_response_failed )
         {
             return this->error_response( details::sm_error_codes::passkey_entry_failed, output, out_size, state );
         }
@@ -994,6 +990,15 @@ namespace bluetoe {
             if ( !std::equal( calc_ea.begin(), calc_ea.end(), &input[ 1 ] ) )
                 return this->error_response( details::sm_error_codes::dhkey_check_failed, output, out_size, state );
 
+            // the user is still asked to confirm: Eb will be sent by lesc_l2cap_output(), once the user confirmed
+            if ( state.state() == details::sm_pairing_state::user_response_wait )
+            {
+                state.remote_dhkey_check_verified();
+                out_size = 0;
+
+                return;
+            }
+
             const auto eb = security_functions().f6( mac_key, state.local_nonce(), state.remote_nonce(), zero, lesc_local_io_caps(), security_functions().local_address(), state.remote_address() );
 
             out_size = pairing_dhkey_check_size;
@@ -1010,7 +1015,7 @@ namespace bluetoe {
     bool details::security_manager_base< SecurityFunctions, ConnectionData, Options... >::lesc_security_manager_output_available( Connection& state ) const
     {
         return state.state() == details::sm_pairing_state::lesc_public_keys_exchanged
-            || state.state() == details::sm_pairing_state::user_response_success
+            || ( state.state() == details::sm_pairing_state::user_response_success && state.is_remote_dhkey_check_verified() )
             || state.state() == details::sm_pairing_state::user_response_failed;
     }
 
